@@ -264,9 +264,9 @@ fn line_sig(o: &Oracle, j: u128, max_len: usize) -> Option<String> {
 
 fn candidates() -> Vec<u128> {
     let mut c: Vec<u128> = (0..160u128).collect();
-    c.extend((TBOUND - 4)..(TBOUND + 4));
+    c.extend((TBOUND - 5)..(TBOUND + 4));
     c.extend((1u128 << 32)..((1u128 << 32) + 160));
-    c.extend((TOP - 3)..=TOP);
+    c.extend((TOP - 4)..=TOP);
     c
 }
 
@@ -784,6 +784,7 @@ struct Inputs {
 }
 
 struct Cfg {
+    max_line: usize,
     sample_mod: usize,
     idx_per_line: usize,
     gap_mod: usize,
@@ -1494,7 +1495,7 @@ struct KeySpec {
 fn run_key(ks: &KeySpec, key_idx: usize, inp: &Inputs, cfg: &Cfg) -> (Out, BTreeSet<String>) {
     let mut out = Out::new();
     let o = Oracle::new(&ks.seed, ks.account, ks.net);
-    let lines = materialise_lines(&o, 3);
+    let lines = materialise_lines(&o, cfg.max_line);
     let covered: BTreeSet<String> = lines.keys().cloned().collect();
     let from_seed = |seed: &[u8], account: u32| {
         guarded(|| with_params!(ks.net, p => UnifiedSpendingKey::from_seed(p, seed, AccountId::try_from(account).unwrap())))
@@ -1534,9 +1535,9 @@ fn run_key(ks: &KeySpec, key_idx: usize, inp: &Inputs, cfg: &Cfg) -> (Out, BTree
     (out, covered)
 }
 
-fn pattern_keys(seed: &[u8], wanted: &BTreeSet<String>, have: &mut BTreeSet<String>) -> Vec<KeySpec> {
+fn pattern_keys(seed: &[u8], wanted: &BTreeSet<String>, have: &mut BTreeSet<String>, max_line: usize) -> Vec<KeySpec> {
     let mut res = vec![];
-    let cands: Vec<u128> = ((TBOUND - 4)..(TBOUND + 2)).chain((TOP - 3)..=TOP).collect();
+    let cands: Vec<u128> = ((TBOUND - 5)..(TBOUND + 2)).chain((TOP - 4)..=TOP).collect();
     for account in 2u32..1500 {
         if wanted.is_subset(have) {
             break;
@@ -1556,7 +1557,7 @@ fn pattern_keys(seed: &[u8], wanted: &BTreeSet<String>, have: &mut BTreeSet<Stri
                 if k == TOP {
                     return Some(format!("{}|e1", parts.join(",")));
                 }
-                if parts.len() >= 3 {
+                if parts.len() >= max_line {
                     return None;
                 }
                 k += 1;
@@ -1599,6 +1600,7 @@ fn main() {
         all_sigs,
     };
     let cfg = Cfg {
+        max_line: cfgv["max_line"].as_u64().unwrap_or(3) as usize,
         sample_mod: cfgv["sample_mod"].as_u64().unwrap_or(12) as usize,
         idx_per_line: cfgv["idx_per_line"].as_u64().unwrap_or(2) as usize,
         gap_mod: cfgv["gap_mod"].as_u64().unwrap_or(8) as usize,
@@ -1634,9 +1636,9 @@ fn main() {
         // accounts whose Sapling diversifier pattern realises the rare lines (2^31 boundary, top of the space)
         let mut have = BTreeSet::new();
         for k in &keys {
-            have.extend(materialise_lines(&Oracle::new(&k.seed, k.account, k.net), 3).into_keys());
+            have.extend(materialise_lines(&Oracle::new(&k.seed, k.account, k.net), cfg.max_line).into_keys());
         }
-        keys.extend(pattern_keys(&seeds[0], &inp.all_sigs, &mut have));
+        keys.extend(pattern_keys(&seeds[0], &inp.all_sigs, &mut have, cfg.max_line));
     }
     let chunks: Vec<Vec<(usize, KeySpec)>> = {
         let mut c: Vec<Vec<(usize, KeySpec)>> = (0..threads.max(1)).map(|_| vec![]).collect();
